@@ -29,10 +29,7 @@ def regenerate():
     if here not in sys.path:
         sys.path.insert(0, here)
     out = {}
-    try:
-        tr = importlib.import_module("translate")
-    except ModuleNotFoundError:
-        return out
+    tr = importlib.import_module("translate")     # a translator that cannot be imported is an infrastructure failure
     produced = set()
     for name, content, notes in tr.generate_all(REPO):
         changed = write_if_changed(os.path.join(GEN_DIR, name), content)
